@@ -223,6 +223,12 @@ example :
   decide +kernel
 
 
+/-- **Tie (translator)**: no lock is left held on a return path — in every block of every function of `pkg/controlsvc` and
+`pkg/workceptor`, a `Lock()` / `RLock()` statement is followed in its block by the matching `Unlock` (plain or deferred)
+before any `return` that is not itself preceded by that `Unlock`.  (A lock left held on one path wedges every later command
+that needs it: `no_control_command_deadlock` is about threads that wait for locks whose holders go on to release them.) -/
+theorem C08_facts_no_lock_left_held : Receptor.Facts.lock_leaks = [] := by decide
+
 /-- **Tie (translator)**: the guards, the reader loop, the dispatch, the command table and the
 messages of every built-in command's parser; `reload` runs under one mutex (its state is shared by all
 sessions: without it concurrent reloads abort the process — found by the harness, repaired in /repo). -/
